@@ -13,7 +13,8 @@ LEVEL = "exploration"
 TIERS = {"quick": {"shards": 16, "budget_s": 120, "runs": 100, "line_runs": 12, "stress_runs": 12, "systematic_pipelines": 2, "systematic_deviations": 1},
          "thorough": {"shards": 16, "budget_s": 900, "runs": 9000, "line_runs": 600, "stress_runs": 150, "systematic_pipelines": 6, "systematic_deviations": 2}}
 RULE = ("The real TokenizerWorker + observer workers (recording observers, PrintWorker with captured stdout, RegionSaverWorker, "
-        "AudioEventsJoinerWorker; optionally a StreamSaverWorker as reader) run under a deterministic cooperative scheduler that "
+        "AudioEventsJoinerWorker; optionally a StreamSaverWorker as reader; with and without a logger; event-free streams; an "
+        "observer that is killed by an injected exception mid-stream next to healthy ones) run under a deterministic cooperative scheduler that "
         "replaces auditok.workers.Queue and Worker.start/join: exactly one thread runs at a time, every hand-over and every "
         "queue-wait timeout firing is a recorded decision of a seeded strategy (uniform, sticky, PCT d=1..3, starvation, timeout "
         "storm; line-level pre-emption inside workers.py via sys.monitoring in 'line' runs).  No external stop is issued.  Oracle "
@@ -50,6 +51,10 @@ def check_run(ctx, case, data, tmpdir, res, expected, what="sched"):
     for o in res.observers:
         kind = o.vf_kind
         ctx.count("observers_checked_" + kind)
+        if kind == "faulty":
+            if getattr(o, "vf_died", False):
+                ctx.count("observers_that_died_mid_stream")
+            continue  # it was killed on purpose; the healthy ones are checked below
         if kind == "rec":
             got = o.vf_log
             if got != expected:
@@ -213,6 +218,17 @@ def run_shard(ctx):
             case = P.random_pipeline_case(rng, max_windows=30 if i % 5 else 60, many_detections=(i % 8 == 3))
             if i % 8 == 3:
                 ctx.count("runs_with_long_bursts_of_detections")
+            if i % 3 == 1:
+                case["logger"] = True  # as --debug does on the command line
+                ctx.count("runs_with_a_logger")
+            if i % 10 == 7:
+                case["v"] = [0] * len(case["v"])  # event-free stream
+            if i % 6 == 2 and case["observers"]:
+                # one observer dies while processing a message: the healthy ones must still get everything and all threads end
+                k = rng.randrange(len(case["observers"]) + 1)
+                case["observers"] = list(case["observers"][:k]) + ["faulty"] + list(case["observers"][k:])
+                case["observer_timeouts"] = list(case["observer_timeouts"][:k]) + [0.2] + list(case["observer_timeouts"][k:])
+                case["observer_dies_at"] = rng.randint(1, 3)
             one(ctx, case, tmpdir)
             if ctx.out_of_time():
                 break
@@ -240,7 +256,7 @@ def inconclusive(merged, tier):
     c = merged["counters"]
     need = ["scheduled_runs", "messages_checked", "timeouts_fired", "context_switches", "line_mode_runs", "line_preemptions",
             "stress_runs", "stress_messages_checked", "systematic_schedules", "systematic_pipelines_fully_enumerated", "observers_checked_rec", "observers_checked_print",
-            "observers_checked_regionsaver", "observers_checked_joiner", "runs_with_stream_saver", "runs_with_long_bursts_of_detections"] + ["strategy_" + s for s in P.S.NAMES]
+            "observers_checked_regionsaver", "observers_checked_joiner", "runs_with_stream_saver", "runs_with_long_bursts_of_detections", "runs_with_a_logger", "observers_that_died_mid_stream"] + ["strategy_" + s for s in P.S.NAMES]
     out = [f"monitor never observed {k}" for k in need if c.get(k, 0) == 0]
     if c.get("inconclusive_runs", 0) > max(3, c.get("scheduled_runs", 0) // 50):
         out.append(f"{c['inconclusive_runs']} runs hit a step/wall cap")
